@@ -273,6 +273,8 @@ EvalLabeled(p, a, b) == Val(LabOuter(p, 0, Clamp(a), Clamp(b), 0))
 \* (a two-level decision tree: the shape on which a matcher that ignores control flow can be fooled by
 \* moving leaves or whole subtrees)
 Cond(c, a, b) == IF c = "b>0" THEN b > 0 ELSE a > b
+\* form "ret": the leaves return; form "glob": the leaves store into a package variable that is returned at
+\* the join (every leaf block then holds an instruction the matcher has to place) — same function
 EvalDecTree(p, a, b) ==
   IF a > 0 THEN (IF Cond(p.c2, a, b) THEN EvalE(p.l1, a, b, p.pres) ELSE EvalE(p.l2, a, b, p.pres))
   ELSE (IF Cond(p.c3, a, b) THEN EvalE(p.l3, a, b, p.pres) ELSE EvalE(p.l4, a, b, p.pres))
@@ -323,7 +325,7 @@ BigConst == [tpl : {"bigconst"}, k1 : {1000, 2000, 17, -1000}, k2 : {100000, 500
 UBig == [tpl : {"ubig"}, k : {"max", "max7", "hi16", "mid"}, small : {3, 5}, pres : {Plain}]
 ConstType == [tpl : {"consttype"}, ty : {"int32", "int64", "uint8"}, pres : {Plain}]
 Leaves == {"a+b", "b", "7"}
-DecTree == [tpl : {"dectree"}, c2 : {"b>0", "a>b"}, c3 : {"b>0", "a>b"}, l1 : Leaves, l2 : Leaves, l3 : Leaves, l4 : Leaves, pres : {Plain}]
+DecTree == [tpl : {"dectree"}, c2 : {"b>0", "a>b"}, c3 : {"b>0", "a>b"}, l1 : Leaves, l2 : Leaves, l3 : Leaves, l4 : Leaves, form : {"ret", "glob"}, pres : {Plain}]
 Labeled == [tpl : {"labeled"}, jump : {"break", "continue"}, lim : {1, 3}, g : {"i*10+j", "j*10+i", "i+j"}, pres : {Plain}]
 SibLoops == [tpl : {"sibloops"}, ret : {"i-j", "j-i", "i+j", "i*2+j"}, pres : {Plain}]
 
